@@ -134,3 +134,45 @@ Theorem C03_sound_nonvacuous :
     claims_true term_ops (mk_ctx term_ops ls_ex) [6; 2] [Atom 7; Atom 3] = true.
 Proof. exact (conj ls_ex_atoms (conj ls_ex_bound (conj ex_honest_accepted ex_honest_by_theorem))). Qed.
 Print Assumptions C03_sound_nonvacuous.
+
+(** ** The map forest: [MapPollard.Verify] and [VerifyPartialProof] (mirror Model/MapRead.v) on any
+    state consistent with the reference forest.  Positions are read in either coordinate system
+    ([claims_true_dual], see Spec/Oracle.v); targets are [uint64] values ([targets64]: the mirror's
+    positions are unbounded [N], the witness [mvs_unbounded_target_accepted] shows the hypothesis is
+    needed for the mirror and vacuous for the Go type). *)
+From Utreexo Require Import Model.MapRead Proofs.MapReadSpec Proofs.MapVerifySound.
+
+Theorem C03_sound_map : forall (s : slots term) R (m : mstate term) hs ts pf idx,
+  leaves_atoms s -> consistent term_ops s R m -> targets64 ts ->
+  map_verify term_ops m hs ts pf = Ok idx ->
+  claims_true_dual term_ops (mk_ctx term_ops s) (N.to_nat (ms_total m)) ts hs = true.
+Proof. exact map_verify_sound. Qed.
+Print Assumptions C03_sound_map.
+
+Theorem C03_sound_map_partial : forall (s : slots term) R (m : mstate term) hs ts pf idx,
+  leaves_atoms s -> consistent term_ops s R m -> targets64 ts ->
+  VerifyPartialProof term_ops m ts hs pf = Ok idx ->
+  claims_true_dual term_ops (mk_ctx term_ops s) (N.to_nat (ms_total m)) ts hs = true.
+Proof. exact map_verify_partial_sound. Qed.
+Print Assumptions C03_sound_map_partial.
+
+Theorem C03_map_false_claim_rejected : forall (s : slots term) R (m : mstate term) hs ts pf idx,
+  leaves_atoms s -> consistent term_ops s R m -> targets64 ts ->
+  claims_true_dual term_ops (mk_ctx term_ops s) (N.to_nat (ms_total m)) ts hs = false ->
+  map_verify term_ops m hs ts pf <> Ok idx.
+Proof. exact map_verify_rejects_false. Qed.
+Print Assumptions C03_map_false_claim_rejected.
+
+Theorem C03_map_partial_false_claim_rejected : forall (s : slots term) R (m : mstate term) hs ts pf idx,
+  leaves_atoms s -> consistent term_ops s R m -> targets64 ts ->
+  claims_true_dual term_ops (mk_ctx term_ops s) (N.to_nat (ms_total m)) ts hs = false ->
+  VerifyPartialProof term_ops m ts hs pf <> Ok idx.
+Proof. exact map_verify_partial_rejects_false. Qed.
+Print Assumptions C03_map_partial_false_claim_rejected.
+
+Theorem C03_sound_map_minimal : forall (s : slots term) R (m : mstate term) hs ts pf idx,
+  leaves_atoms s -> consistent term_ops s R m -> ms_total m = TreeRows (ms_n m) ->
+  map_verify term_ops m hs ts pf = Ok idx ->
+  claims_true term_ops (mk_ctx term_ops s) ts hs = true.
+Proof. exact map_verify_sound_minimal. Qed.
+Print Assumptions C03_sound_map_minimal.
